@@ -49,6 +49,7 @@ type relayTimer struct {
 }
 
 func (rt *relayTimer) OnTimer() {
+	verifPoint("relayTimer.OnTimer", rt.id)
 	rt.verifyNotReleased()
 	items, id, isOriginator := rt.items, rt.id, rt.isOriginator
 	rt.markTimerInactive()
